@@ -1,1 +1,1 @@
-from . import gates, removes  # noqa
+from . import gates, removes, merge  # noqa
